@@ -342,7 +342,8 @@ def Image.xmlString (ft : FloatText) (i : Image) : String :=
 
 /-- escaping of the extension URL inside the `xmlns:` attribute -/
 def attrEscape (s : String) : String :=
-  ((s.replace "&" "&amp;").replace "<" "&lt;").replace "\"" "&quot;"
+  ((((((s.replace "&" "&amp;").replace "<" "&lt;").replace "\"" "&quot;").replace "\t" "&#9;").replace "\n" "&#10;").replace
+    "\r" "&#13;")
 
 /-- `serialize_root`; `none` = "Empty file GUID is not allowed" -/
 def serializeRoot (ft : FloatText) (root : Root) (pcs : List PointCloud) (imgs : List Image)
